@@ -78,11 +78,12 @@ def run_cert(kind, tier, seed, C, tz=None):
     p = subprocess.run([os.path.join(C["VERIF"], "harness", "harness"), kind, tier, str(seed)], capture_output=True, text=True, env=env, timeout=7200)
     if p.returncode != 0:
         return {"cases": 0, "nontrivial": 0, "samples": [], "violations": [], "error": "harness %s failed: %s" % (kind, p.stderr[-300:])}
-    descr = []; terms = []; viol = []
+    descr = []; terms = []; viol = []; notes = 0
     for l in p.stdout.split("\n"):
         if l.startswith("CASE "): descr.append(l[5:])
         elif l.startswith("COQ "): terms.append(l[4:])
         elif l.startswith("SELFFAIL "): viol.append({"case": l[9:200], "detail": l[9:], "concrete": True})
+        elif l.startswith("NOTE "): notes += 1
     if len(descr) != len(terms):
         return {"cases": 0, "nontrivial": 0, "samples": [], "violations": viol, "error": "harness %s: %d CASE lines but %d COQ lines" % (kind, len(descr), len(terms))}
     # shard and evaluate
@@ -119,7 +120,7 @@ def run_cert(kind, tier, seed, C, tz=None):
         hist[k] = hist.get(k, 0) + 1
     distinct = len(set(hashlib.sha1(t.encode()).hexdigest() for t, d in zip(terms, descr) if " cert " in d))
     return {"cases": len(terms), "nontrivial": distinct, "samples": [d[:600] for d in descr[3:len(descr):max(1, len(descr) // 3)]][:3], "violations": viol, "error": err, "outcomes": hist,
-            **({"tz": tz} if tz else {})}
+            **({"rejected_at_parse_time": notes} if notes else {}), **({"tz": tz} if tz else {})}
 
 DIR_HEADER = """From Coq Require Import List Arith Bool.
 From Gopki.Model Require Import Dir Plan Run Ops Current DirCaseLib.
@@ -174,8 +175,116 @@ def run_dir(kind, tier, seed, C):
     return {"cases": len(terms), "nontrivial": len(set(terms)), "samples": [d[:700] for d in descr[1:len(descr):max(1, len(descr) // 3)]][:3], "violations": viol, "error": err,
             "steps": steps, "runs": runs}
 
+KEY_HEADER = """From Coq Require Import List NArith ZArith Bool String.
+From Coq.Strings Require Import Byte.
+From Gopki.Model Require Import Bytes Base64 Der Asn1 Text Algs Pkcs8 Pem KeyCaseLib.
+Import ListNotations.
+"""
+KEY_CODES = {("K", 1): "PKCS#8 bytes written by gopki differ from the model's encoding (RFC 5208/5915 form with fixed-width scalar)",
+             ("K", 2): "the written PKCS#8 does not parse back (model parser) to the same key",
+             ("P", 3): "gopki's parser and the model's parser read different keys from the same bytes",
+             ("P", 4): "gopki rejects a PKCS#8 structure the model (and the property) accepts",
+             ("P", 5): "gopki accepts bytes that are not a valid supported key",
+             ("M", 1): "PEM block list differs from the model's pem.Decode", ("M", 2): "'undecodable data left' differs from the model",
+             ("M", 3): "objects / error reported by cert.ReadPem differ from the model", ("M", 4): "the directory import keeps different objects than the model",
+             ("H", 1): "stored configuration hash read from the artifact file differs from the model", ("H", 2): "opening the directory panicked on this artifact file"}
+
+def run_keys(kind, tier, seed, C):
+    p = subprocess.run([os.path.join(C["VERIF"], "harness", "harness"), kind, tier, str(seed)], capture_output=True, text=True, env=C["ENV"], timeout=7200)
+    if p.returncode != 0:
+        return {"cases": 0, "nontrivial": 0, "samples": [], "violations": [], "error": "harness %s failed: %s" % (kind, p.stderr[-300:])}
+    descr = {"K": [], "P": [], "M": [], "H": []}; terms = {"K": [], "P": [], "M": [], "H": []}; viol = []; last = None; extra = 0; summary = None
+    for l in p.stdout.split("\n"):
+        if l.startswith("CASE "): last = l[5:]
+        elif l.startswith("COQ "):
+            k = l[4]; terms[k].append("(" + l[6:] + ")"); descr[k].append(last)
+        elif l.startswith("SELFFAIL "): viol.append({"case": l[9:300], "detail": l[9:], "concrete": True})
+        elif l.startswith("SUMMARY "):
+            summary = l[8:]; mm = re.search(r"cases=(\d+)", l); extra = int(mm.group(1)) if mm else 0
+    DEF = {"K": ("key_case", "run_keys"), "P": ("parse_case", "run_parses"), "M": ("pem_case", "run_pems"), "H": ("hash_case", "run_hashes")}
+    procs = []
+    for k in "KPMH":
+        if not terms[k]: continue
+        nsh = max(1, min(8, len(terms[k]) // 80))
+        for sh_i in range(nsh):
+            idx = list(range(sh_i, len(terms[k]), nsh))
+            name = "Keys_%s_%s_%d" % (re.sub(r"\W", "_", kind), k, sh_i)
+            v = KEY_HEADER + "Definition cases : list %s := [\n" % DEF[k][0] + ";\n".join(terms[k][i] for i in idx) + "].\nDefinition M := Eval vm_compute in %s cases.\nPrint M.\n" % DEF[k][1]
+            open(os.path.join(C["bdir"], name + ".v"), "w").write(v)
+            procs.append((k, idx, name, subprocess.Popen(["coqc"] + C["COQ_Q"] + [name + ".v"], cwd=C["bdir"], stdout=subprocess.PIPE, stderr=subprocess.PIPE, text=True, env=C["ENV"])))
+    err = None
+    for k, idx, name, pr in procs:
+        try: o, e = pr.communicate(timeout=3000)
+        except subprocess.TimeoutExpired:
+            pr.kill(); err = "coqc %s timed out" % name; continue
+        if pr.returncode != 0:
+            err = "coqc %s failed: %s" % (name, e.strip()[-400:]); continue
+        m = re.search(r"M\s*=\s*(.*?)\s*:\s*list", o, re.S)
+        if not m: err = "coqc %s: no result" % name; continue
+        for j, codes in re.findall(r"\((\d+), \[([^\]]*)\]\)", m.group(1)):
+            cs = [int(x) for x in re.findall(r"\d+", codes)]
+            i = idx[int(j)]
+            viol.append({"case": descr[k][i], "detail": "; ".join(KEY_CODES.get((k, c), str(c)) for c in cs), "codes": cs,
+                         "concrete": (any(c in (2, 5) for c in cs) if k in "KP" else (2 in cs if k == "H" else False)), "coq": terms[k][i][:20000]})
+        for f in (name + ".vo", name + ".glob", name + ".vok", name + ".vos", "." + name + ".aux"):
+            try: os.remove(os.path.join(C["bdir"], f))
+            except OSError: pass
+    n = sum(len(terms[k]) for k in terms)
+    alld = descr["K"] + descr["P"] + descr["M"] + descr["H"]
+    if extra: n = max(n, extra)
+    return {"cases": n, "nontrivial": len(set(sum(terms.values(), []))), "summary": summary, "samples": alld[1:len(alld):max(1, len(alld) // 3)][:3], "violations": viol, "error": err,
+            "kinds": {k: len(terms[k]) for k in terms}}
+
+HASH_HEADER = """From Coq Require Import List NArith ZArith Bool String.
+From Coq.Strings Require Import Byte.
+From Gopki.Model Require Import Bytes Base64 Der Asn1 Text Algs Ext Rdn Time X509 Generate Merge Validate Current Effective HashView HashCaseLib.
+Import ListNotations.
+Definition cases : list hash_pair := [
+"""
+HASH_CODES = {1: "model and implementation disagree on whether the two configuration hashes are equal",
+              2: "C13 sensitivity: the hashes are equal although the edit changes the certificate that gets generated",
+              3: "C13 stability: the hashes differ although nothing certificate-relevant differs (alias / profile name / text form / parse time / written-out default)",
+              4: "one side is rejected by exactly one of model and implementation"}
+
+def run_hview(kind, tier, seed, C):
+    p = subprocess.run([os.path.join(C["VERIF"], "harness", "harness"), kind, tier, str(seed)], capture_output=True, text=True, env=C["ENV"], timeout=7200)
+    if p.returncode != 0:
+        return {"cases": 0, "nontrivial": 0, "samples": [], "violations": [], "error": "harness %s failed: %s" % (kind, p.stderr[-300:])}
+    descr = []; terms = []; viol = []
+    for l in p.stdout.split("\n"):
+        if l.startswith("CASE "): descr.append(l[5:])
+        elif l.startswith("COQ "): terms.append("(" + l[4:] + ")")
+        elif l.startswith("SELFFAIL "): viol.append({"case": l[9:300], "detail": l[9:], "concrete": True})
+    nsh = max(1, min(12, len(terms) // 100)); procs = []
+    for k in range(nsh):
+        idx = list(range(k, len(terms), nsh)); name = "Hash_%d" % k
+        open(os.path.join(C["bdir"], name + ".v"), "w").write(HASH_HEADER + ";\n".join(terms[i] for i in idx) + "].\nDefinition M := Eval vm_compute in run_pairs cases.\nPrint M.\n")
+        procs.append((idx, name, subprocess.Popen(["coqc"] + C["COQ_Q"] + [name + ".v"], cwd=C["bdir"], stdout=subprocess.PIPE, stderr=subprocess.PIPE, text=True, env=C["ENV"])))
+    err = None
+    for idx, name, pr in procs:
+        try: o, e = pr.communicate(timeout=3000)
+        except subprocess.TimeoutExpired:
+            pr.kill(); err = "coqc %s timed out" % name; continue
+        if pr.returncode != 0:
+            err = "coqc %s failed: %s" % (name, e.strip()[-400:]); continue
+        m = re.search(r"M\s*=\s*(.*?)\s*:\s*list", o, re.S)
+        if not m: err = "coqc %s: no result" % name; continue
+        for j, codes in re.findall(r"\((\d+), \[([^\]]*)\]\)", m.group(1)):
+            cs = [int(x) for x in re.findall(r"\d+", codes)]; i = idx[int(j)]
+            viol.append({"case": descr[i][:3000], "detail": "; ".join(HASH_CODES.get(c, str(c)) for c in cs), "codes": cs, "concrete": any(c in (2, 3) for c in cs), "coq": terms[i][:20000]})
+        for f in (name + ".vo", name + ".glob", name + ".vok", name + ".vos", "." + name + ".aux"):
+            try: os.remove(os.path.join(C["bdir"], f))
+            except OSError: pass
+    kinds = {}
+    for d in descr:
+        k = re.sub(r"^hview-\d+-\d+-", "", d.split(" ")[0]); kinds[k] = kinds.get(k, 0) + 1
+    return {"cases": len(terms), "nontrivial": len(set(terms)), "samples": [d[:500] for d in descr[2:len(descr):max(1, len(descr) // 3)]][:3], "violations": viol, "error": err, "pair_kinds": kinds,
+            "unparsed_pairs": sum(1 for t in terms if t.endswith("None)"))}
+
 def run_stream(st, prop, tier, seed, C):
     if st in PIPE: return run_pipe(PIPE[st], tier, seed, C)
+    if st == "hview": return run_hview(st, tier, seed, C)
+    if st in ("pkcs8", "pem", "hostile-files"): return run_keys(st, tier, seed, C)
     if st in ("dirrun", "dirfault"): return run_dir(st, tier, seed, C)
     if st.startswith("cert-"):
         tz = None
